@@ -8,6 +8,7 @@ CONSTANTS
   AfterSizes = {2}
   ReqModes = {"page", "after", "before"}
   MaxN = 4
+  MaxN1 = 4
   MaxN2 = 3
   ScoresSorted = {0, 1, 2}
   ScoresOther = {1}
